@@ -14,6 +14,8 @@ LEVEL = "model_checking"
 
 CALLS = {
     "O": lambda n: {"n": n},
+    "E": lambda n: {"n": 0},
+    "J": lambda n: {"n": n, "iter_raises": True, "iter_fail_at": -1},
     "F0": lambda n: {"n": n, "fail": [0]},
     "Fl": lambda n: {"n": n, "fail": [n - 1]},
     "Fa": lambda n: {"n": n, "fail": list(range(n))},
@@ -84,8 +86,8 @@ def judge(cfg, obs):
         spec = CALLS[name](n)
         prev = "first" if idx == 0 else "after-" + cfg["calls"][idx - 1]
         executed = [i for (cc, i) in env.exec_log if cc == c]
-        if name == "O":
-            want = [("r", c, i) for i in range(n)]
+        if name in ("O", "E"):
+            want = [("r", c, i) for i in range(spec["n"])]
             if "exc" in d:
                 bad.append(("ok-call-raises:%s|%s" % (d["exc"][0], prev), "call %d (ok, %s) raised %s%r" % (c, prev, d["exc"][0], d["exc"][1])))
             elif (sorted(d.get("result") or [], key=repr) if ra == "generator_unordered" else d.get("result")) != (sorted(want, key=repr) if ra == "generator_unordered" else want):
@@ -93,7 +95,7 @@ def judge(cfg, obs):
                 foreign = [x for x in (got or []) if not (isinstance(x, tuple) and len(x) == 3 and x[1] == c)]
                 kind = "foreign-result" if foreign else "wrong-result"
                 bad.append(("%s|%s" % (kind, prev), "call %d (ok, %s) returned %r instead of %r" % (c, prev, got, want)))
-            if sorted(executed) != list(range(n)) and "exc" not in d:
+            if sorted(executed) != list(range(spec["n"])) and "exc" not in d:
                 bad.append(("ok-call-tasks-not-once|%s" % prev, "call %d executed its tasks %r (expected each of 0..%d once)" % (c, executed, n - 1)))
         else:
             if "exc" not in d:
@@ -138,13 +140,14 @@ def _work(unit):
 
 def plan(ctx):
     quick = ctx.tier == "quick"
-    fails = ["F0", "Fl", "Fa", "F1", "I", "I0", "Il", "T", "Tl"]
+    fails = ["F0", "Fl", "Fa", "F1", "I", "I0", "Il", "T", "Tl", "J"]
     progs = [("O", "O")] + [(f, "O") for f in fails]
     if not quick:
         progs += [(f, g, "O") for f in ("F0", "Fl", "I", "T", "Tl") for g in ("F0", "I", "T", "O")]
         progs += [("O", f, "O") for f in ("F0", "T")]
+        progs += [(f, "E", "O") for f in ("F0", "F1", "Fl", "I", "Il", "T")] + [("E", "O"), ("E", "E", "O")]
     else:
-        progs += [("F0", "F0", "O"), ("F0", "T", "O"), ("O", "F1", "O")]
+        progs += [("F0", "F0", "O"), ("F0", "T", "O"), ("O", "F1", "O"), ("F0", "E", "O"), ("I", "E", "O"), ("E", "O")]
     configs = []
     for nj, bs, pre, ra, ab, managed, calls in itertools.product(
             PC.N_JOBS, (1, 2), (1, "n_jobs", "2*n_jobs", 3, "all"), ("list", "generator", "generator_unordered"), ("drop", "zombie"),
